@@ -20,6 +20,7 @@ import itertools
 import json
 import os
 import random
+import re
 import shutil
 import signal
 import subprocess
@@ -121,8 +122,8 @@ def model_clean(stderr_text):
     nodup = [l for i, l in enumerate(lines) if i == 0 or l != lines[i - 1]]
     exp = []
     for l in nodup:
-        if "\tat" in l or ".java:" in l:
-            continue
+        if "\tat" in l or ".java:" in l or re.fullmatch(r"\s*\.\.\. \d+ more\s*", l):
+            continue  # stack frames and the '... N more' tail of a Java stack trace are noise
         strict = True
         for p in _JAVA_PREFIXES:
             if l.startswith(p):
@@ -173,6 +174,10 @@ def stderr_shape(rng, shape):
     elif shape == "javaprefix":
         L += [f"java.lang.RuntimeException: {u()} failed at {path()}", f"org.javarosa.xpath.XPathUnhandledException: {u()} cannot handle function 'foo'",
               f"java.lang.NullPointerException {u()}", f"Caused by: something {u()} (Parser.java:12)", f"final {u()}"]
+    elif shape == "stacktail":
+        L += [f"org.javarosa.core.log.WrappedException: {u()} error evaluating {path()}", "\tat org.javarosa.core.model.FormDef.initialize(FormDef.java:%d)" % rng.randrange(999),
+              "    at org.javarosa.form.api.FormEntryModel.<init>(FormEntryModel.java:9)", "\t... %d more" % rng.randrange(2, 40), f"Caused by: cause {u()} at {path()}",
+              "\tat org.javarosa.xpath.expr.XPathPathExpr.eval(XPathPathExpr.java:%d)" % rng.randrange(999), "\t... %d more" % rng.randrange(2, 40), f"Result: Invalid {u()}"]
     elif shape == "crlf":
         L += [f"line one {u()} {path()}\r", f"line two {u()}\r", f"line three {u()}"]
     elif shape == "unicode":
@@ -197,7 +202,7 @@ def stderr_shape(rng, shape):
     return ("\n".join(L) + "\n").encode("utf-8")
 
 
-REJECT_SHAPES = ["parse", "xpath", "dupes", "excluded", "javaprefix", "crlf", "unicode", "jarfile", "big", "wsedge", "empty", "latin1", "highbytes", "utf8-plus-stray-byte"]
+REJECT_SHAPES = ["stacktail", "parse", "xpath", "dupes", "excluded", "javaprefix", "crlf", "unicode", "jarfile", "big", "wsedge", "empty", "latin1", "highbytes", "utf8-plus-stray-byte"]
 WARN_SHAPES = ["xpath", "dupes", "unicode", "crlf", "latin1", "big", "excluded", "highbytes", "utf8-plus-stray-byte"]
 
 # outcome kinds -> (class, scenario for the stand-in)
@@ -472,6 +477,8 @@ def run_script(ctx, sc, base, FORMS, seed):
             if okind == "corruptjar":
                 if "jarfile" not in msg:
                     V(f"reject-message:corruptjar:{mk}", f"{where}: message does not carry java's corrupt-jar diagnostic: {msg[:200]!r}")
+                elif "${" in msg or JAR not in msg:
+                    V(f"reject-message:corruptjar:file-path-tokenised:{mk}", f"{where}: the jar's file path (not an instance path) was rewritten: {msg[:200]!r}")
                 return
             head, _, body = msg.partition("\n")
             if "ODK Validate" not in head:
@@ -484,11 +491,9 @@ def run_script(ctx, sc, base, FORMS, seed):
             if not okm:
                 # locate the first difference for the key
                 kind = "lines"
-                for g, (e, strict) in itertools.zip_longest(got, exp_lines, fillvalue=(None)):
-                    pass
                 if len(got) > len(exp):
                     extra = [g for g in got if g not in exp]
-                    kind = "java-noise-kept" if any(("\tat" in g or ".java:" in g) for g in extra) else ("duplicate-kept" if len(set(got)) < len(got) else "extra-lines")
+                    kind = "java-noise-kept" if any(("\tat" in g or ".java:" in g or re.fullmatch(r"\s*\.\.\. \d+ more\s*", g)) for g in extra) else ("duplicate-kept" if len(set(got)) < len(got) else "extra-lines")
                 elif len(got) < len(exp):
                     kind = "lines-lost"
                 else:
